@@ -304,4 +304,24 @@ theorem resolve_step (lk : Nat → Option CDef) (hu : UidInj lk) (pre : List Nat
               simp only
               exact step_push c ty hl hs
 
+/-- constructors kept in a table with pairwise different ids (as pavexc's component ids are) give a
+    lookup that satisfies `UidInj` -/
+theorem uidInj_of_table (tab : List CDef) (h : (tab.map (·.uid)).Nodup) :
+    UidInj (fun t => tab.find? (fun d => d.ty == t)) := by
+  intro t1 t2 c1 c2 h1 h2 hu
+  have m1 := List.mem_of_find?_eq_some h1
+  have m2 := List.mem_of_find?_eq_some h2
+  clear h1 h2
+  induction tab with
+  | nil => cases m1
+  | cons a as ih =>
+    simp only [List.map_cons, List.nodup_cons] at h
+    simp only [List.mem_cons] at m1 m2
+    rcases m1 with rfl | m1 <;> rcases m2 with rfl | m2
+    · rfl
+    · exfalso; apply h.1; rw [hu]; exact List.mem_map.mpr ⟨c2, m2, rfl⟩
+    · exfalso; apply h.1; rw [← hu]; exact List.mem_map.mpr ⟨c1, m1, rfl⟩
+    · exact ih h.2 m1 m2
+
+
 end Pxv.Life
